@@ -1,4 +1,4 @@
-(* GENERATED from the Go sources of /var/tmp/mrepo by /verif/tools/gen_model — do not edit. *)
+(* GENERATED from the Go sources of /repo by /verif/tools/gen_model — do not edit. *)
 From Coq Require Import String.
 From OtpV Require Import Prelude Sha GoSem Rfc4648 Errors Decoder Otp Ocra Utils Suite Url.
 Open Scope N_scope.
@@ -24,24 +24,6 @@ Definition unmarshal_errResp (b : body) : t_errResp * option bytes :=
   | None => (zero_errResp, Some [])
   end.
 Definition marshal_errResp (r : t_errResp) : jout := OObj ([(s2b "code", OStr (errResp_Code r))] ++ [(s2b "message", OStr (errResp_Message r))]).
-
-Record t_failure := mk_failure { failure_status : Z; failure_message : bytes; failure_details : unit }.
-Definition zero_failure : t_failure := mk_failure 0%Z [] tt.
-Definition set_failure_status (r : t_failure) (v : Z) : t_failure := mk_failure v (failure_message r) (failure_details r).
-Definition set_failure_message (r : t_failure) (v : bytes) : t_failure := mk_failure (failure_status r) v (failure_details r).
-Definition set_failure_details (r : t_failure) (v : unit) : t_failure := mk_failure (failure_status r) (failure_message r) v.
-Definition decode_failure (f : list (bytes * jv)) : option t_failure :=
-  match dec_int64 (field "status" f),
-        dec_string (field "message" f) with
-  | Some a0, Some a1 => Some (mk_failure a0 a1 tt)
-  | _, _ => None
-  end.
-Definition unmarshal_failure (b : body) : t_failure * option bytes :=
-  match body_fields b with
-  | Some f => match decode_failure f with Some r => (r, None) | None => (zero_failure, Some []) end
-  | None => (zero_failure, Some [])
-  end.
-Definition marshal_failure (r : t_failure) : jout := OObj ([(s2b "status", OInt (failure_status r))] ++ [(s2b "message", OStr (failure_message r))]).
 
 Record t_generateRandomSecretResp := mk_generateRandomSecretResp { generateRandomSecretResp_Secret : bytes; generateRandomSecretResp_Algorithm : bytes }.
 Definition zero_generateRandomSecretResp : t_generateRandomSecretResp := mk_generateRandomSecretResp [] [].
@@ -404,4 +386,525 @@ Definition suiteConfigReq_validate (t : t_suiteConfigReq) : res (option bytes) :
   if (negb t1) then (Val (Some ((s2b "unknown suite: ") ++ (suiteConfigReq_RawSuite t))))
   else
   Val None.
+
+Definition totpGeneration (fuel0 : nat) (junk_rfc4226BufPool : bytes) (ctx : rctx) : res rctx :=
+  if (negb (ctx_is_post ctx)) then (do t1 <- writeError ctx 405%Z (s2b "method not allowed") tt;
+  let '(ctx) := t1 in
+  Val ctx)
+  else
+  let req : t_otpGenerateReq := zero_otpGenerateReq in
+  let '(req, t2) := unmarshal_otpGenerateReq (ctx_body ctx) in
+  let err_ := t2 in
+  if (is_some err_) then (do t3 <- writeError ctx 400%Z (s2b "failed to decode body") tt;
+  let '(ctx) := t3 in
+  Val ctx)
+  else
+  do t4 <- otpGenerateReq_validate req;
+  let err__2 := t4 in
+  if (is_some err__2) then (do t5 <- deref err__2;
+  do t6 <- writeError ctx 400%Z t5 tt;
+  let '(ctx) := t6 in
+  Val ctx)
+  else
+  do t7 <- Src.AlgorithmFromStr (otpGenerateReq_Algorithm req);
+  let algo := t7 in
+  do t8 <- Src.DigitsFromStr (otpGenerateReq_Digits req);
+  let digits := t8 in
+  let kj1 := fun (req : t_otpGenerateReq) =>
+  let t : Z := 0%Z in
+  let kj2 := fun (t : Z) =>
+  do t9 <- Src.GenerateTOTP fuel0 junk_rfc4226BufPool (trim_space (otpGenerateReq_Secret req)) t (Some (mkParam digits (otpGenerateReq_Period req) 0%N algo));
+  let t10 := (fst t9, option_map err_text (snd t9)) in
+  let '(code, err__3) := t10 in
+  if (is_some err__3) then (do t11 <- writeError ctx 500%Z (s2b "totp generation failed") tt;
+  let '(ctx) := t11 in
+  Val ctx)
+  else
+  let resp := (mk_otpGenerateResp code t 0%N []) in
+  let '(data, err__3) := ((marshal_otpGenerateResp resp), @None bytes) in
+  if (is_some err__3) then (do t12 <- writeError ctx 500%Z (s2b "failed to marshal response") tt;
+  let '(ctx) := t12 in
+  Val ctx)
+  else
+  let ctx := (ctx_set_ctype ctx (s2b "application/json")) in
+  let ctx := (ctx_set_status ctx 200%Z) in
+  let ctx := (ctx_set_body ctx data) in
+  Val ctx in
+  if (Z.ltb 0%Z (otpGenerateReq_Timestamp req)) then (let t := (otpGenerateReq_Timestamp req) in
+  kj2 t)
+  else (let t := (cx_now ctx) in
+  kj2 t) in
+  if (N.eqb (otpGenerateReq_Period req) 0%N) then (let req := set_otpGenerateReq_Period req 30%N in
+  kj1 req)
+  else (kj1 req).
+
+Definition totpValidation (fuel0 : nat) (junk_rfc4226BufPool : bytes) (ctx : rctx) : res rctx :=
+  if (negb (ctx_is_post ctx)) then (do t1 <- writeError ctx 405%Z (s2b "method not allowed") tt;
+  let '(ctx) := t1 in
+  Val ctx)
+  else
+  let req : t_otpValidateReq := zero_otpValidateReq in
+  let '(req, t2) := unmarshal_otpValidateReq (ctx_body ctx) in
+  let err_ := t2 in
+  if (is_some err_) then (do t3 <- writeError ctx 400%Z (s2b "failed to decode body") tt;
+  let '(ctx) := t3 in
+  Val ctx)
+  else
+  do t4 <- otpValidateReq_validate req;
+  let err__2 := t4 in
+  if (is_some err__2) then (do t5 <- deref err__2;
+  do t6 <- writeError ctx 400%Z t5 tt;
+  let '(ctx) := t6 in
+  Val ctx)
+  else
+  do t7 <- Src.AlgorithmFromStr (otpValidateReq_Algorithm req);
+  let algo := t7 in
+  do t8 <- Src.DigitsFromStr (otpValidateReq_Digits req);
+  let digits := t8 in
+  let t : Z := 0%Z in
+  let kj1 := fun (t : Z) =>
+  do t9 <- Src.ValidateTOTP fuel0 junk_rfc4226BufPool (trim_space (otpValidateReq_Secret req)) (otpValidateReq_Code req) t (Some (mkParam digits (otpValidateReq_Period req) (otpValidateReq_Skew req) algo));
+  let t10 := (fst t9, option_map err_text (snd t9)) in
+  let '(ok, _) := t10 in
+  let resp := (mk_otpValidateResp ok) in
+  let '(data, err__3) := ((marshal_otpValidateResp resp), @None bytes) in
+  if (is_some err__3) then (do t11 <- writeError ctx 500%Z (s2b "failed to marshal response") tt;
+  let '(ctx) := t11 in
+  Val ctx)
+  else
+  let ctx := (ctx_set_ctype ctx (s2b "application/json")) in
+  let ctx := (ctx_set_status ctx 200%Z) in
+  let ctx := (ctx_set_body ctx data) in
+  Val ctx in
+  if (Z.ltb 0%Z (otpValidateReq_Timestamp req)) then (let t := (otpValidateReq_Timestamp req) in
+  kj1 t)
+  else (let t := (cx_now ctx) in
+  kj1 t).
+
+Definition hotpGeneration (fuel0 : nat) (junk_rfc4226BufPool : bytes) (ctx : rctx) : res rctx :=
+  if (negb (ctx_is_post ctx)) then (do t1 <- writeError ctx 405%Z (s2b "method not allowed") tt;
+  let '(ctx) := t1 in
+  Val ctx)
+  else
+  let req : t_otpGenerateReq := zero_otpGenerateReq in
+  let '(req, t2) := unmarshal_otpGenerateReq (ctx_body ctx) in
+  let err_ := t2 in
+  if (is_some err_) then (do t3 <- writeError ctx 400%Z (s2b "failed to decode body") tt;
+  let '(ctx) := t3 in
+  Val ctx)
+  else
+  do t4 <- otpGenerateReq_validate req;
+  let err__2 := t4 in
+  if (is_some err__2) then (do t5 <- deref err__2;
+  do t6 <- writeError ctx 400%Z t5 tt;
+  let '(ctx) := t6 in
+  Val ctx)
+  else
+  do t7 <- Src.AlgorithmFromStr (otpGenerateReq_Algorithm req);
+  let algo := t7 in
+  do t8 <- Src.DigitsFromStr (otpGenerateReq_Digits req);
+  let digits := t8 in
+  do t9 <- Src.GenerateHOTP fuel0 junk_rfc4226BufPool (otpGenerateReq_Secret req) (otpGenerateReq_Counter req) (Some (mkParam digits 0%N 0%N algo));
+  let t10 := (fst t9, option_map err_text (snd t9)) in
+  let '(code, err__3) := t10 in
+  if (is_some err__3) then (do t11 <- writeError ctx 500%Z (s2b "hotp generation failed") tt;
+  let '(ctx) := t11 in
+  Val ctx)
+  else
+  let resp := (mk_otpGenerateResp code 0%Z (otpGenerateReq_Counter req) []) in
+  let '(data, err__3) := ((marshal_otpGenerateResp resp), @None bytes) in
+  if (is_some err__3) then (do t12 <- writeError ctx 500%Z (s2b "failed to marshal response") tt;
+  let '(ctx) := t12 in
+  Val ctx)
+  else
+  let ctx := (ctx_set_ctype ctx (s2b "application/json")) in
+  let ctx := (ctx_set_status ctx 200%Z) in
+  let ctx := (ctx_set_body ctx data) in
+  Val ctx.
+
+Definition hotpValidation (fuel0 : nat) (junk_rfc4226BufPool : bytes) (ctx : rctx) : res rctx :=
+  if (negb (ctx_is_post ctx)) then (do t1 <- writeError ctx 405%Z (s2b "method not allowed") tt;
+  let '(ctx) := t1 in
+  Val ctx)
+  else
+  let req : t_otpValidateReq := zero_otpValidateReq in
+  let '(req, t2) := unmarshal_otpValidateReq (ctx_body ctx) in
+  let err_ := t2 in
+  if (is_some err_) then (do t3 <- writeError ctx 400%Z (s2b "failed to decode body") tt;
+  let '(ctx) := t3 in
+  Val ctx)
+  else
+  do t4 <- otpValidateReq_validate req;
+  let err__2 := t4 in
+  if (is_some err__2) then (do t5 <- deref err__2;
+  do t6 <- writeError ctx 400%Z t5 tt;
+  let '(ctx) := t6 in
+  Val ctx)
+  else
+  do t7 <- Src.AlgorithmFromStr (otpValidateReq_Algorithm req);
+  let algo := t7 in
+  do t8 <- Src.DigitsFromStr (otpValidateReq_Digits req);
+  let digits := t8 in
+  do t9 <- Src.ValidateHOTP fuel0 junk_rfc4226BufPool (otpValidateReq_Secret req) (otpValidateReq_Code req) (otpValidateReq_Counter req) (Some (mkParam digits 0%N (otpValidateReq_Skew req) algo));
+  let t10 := (fst t9, option_map err_text (snd t9)) in
+  let '(ok, _) := t10 in
+  let resp := (mk_otpValidateResp ok) in
+  let '(data, err__3) := ((marshal_otpValidateResp resp), @None bytes) in
+  if (is_some err__3) then (do t11 <- writeError ctx 500%Z (s2b "failed to marshal response") tt;
+  let '(ctx) := t11 in
+  Val ctx)
+  else
+  let ctx := (ctx_set_ctype ctx (s2b "application/json")) in
+  let ctx := (ctx_set_status ctx 200%Z) in
+  let ctx := (ctx_set_body ctx data) in
+  Val ctx.
+
+Definition otpURLGeneration (fuel0 : nat) (ctx : rctx) : res rctx :=
+  if (negb (ctx_is_post ctx)) then (do t1 <- writeError ctx 405%Z (s2b "method not allowed") tt;
+  let '(ctx) := t1 in
+  Val ctx)
+  else
+  let req : t_otpURLGenerateReq := zero_otpURLGenerateReq in
+  let '(req, t2) := unmarshal_otpURLGenerateReq (ctx_body ctx) in
+  let err_ := t2 in
+  if (is_some err_) then (do t3 <- writeError ctx 400%Z (s2b "failed to decode body") tt;
+  let '(ctx) := t3 in
+  Val ctx)
+  else
+  do t4 <- otpURLGenerateReq_validate req;
+  let err__2 := t4 in
+  if (is_some err__2) then (do t5 <- deref err__2;
+  do t6 <- writeError ctx 400%Z t5 tt;
+  let '(ctx) := t6 in
+  Val ctx)
+  else
+  do t7 <- Src.AlgorithmFromStr (otpURLGenerateReq_Algorithm req);
+  let algo := t7 in
+  do t8 <- Src.DigitsFromStr (otpURLGenerateReq_Digits req);
+  let digits := t8 in
+  let resp : t_otpURLGenerateResp := zero_otpURLGenerateResp in
+  let t9 := (otpURLGenerateReq_Type req) in
+  let kj1 := fun (resp : t_otpURLGenerateResp) =>
+  let '(data, err__3) := ((marshal_otpURLGenerateResp resp), @None bytes) in
+  if (is_some err__3) then (do t10 <- writeError ctx 500%Z (s2b "failed to marshal response") tt;
+  let '(ctx) := t10 in
+  Val ctx)
+  else
+  let ctx := (ctx_set_ctype ctx (s2b "application/json")) in
+  let ctx := (ctx_set_status ctx 200%Z) in
+  let ctx := (ctx_set_body ctx data) in
+  Val ctx in
+  if ((beqb t9 (s2b "totp"))) then (do t11 <- Src.GenerateTOTPURL fuel0 (mkUrlParam (otpURLGenerateReq_Issuer req) (otpURLGenerateReq_AccountName req) (otpURLGenerateReq_Period req) (otpURLGenerateReq_Secret req) digits algo);
+  let t12 := (fst t11, option_map err_text (snd t11)) in
+  let '(url, err__4) := t12 in
+  if (is_some err__4) then (do t13 <- writeError ctx 500%Z (s2b "otp generation failed") tt;
+  let '(ctx) := t13 in
+  Val ctx)
+  else
+  do t14 <- deref url;
+  let resp := set_otpURLGenerateResp_URL resp (url_string t14) in
+  kj1 resp)
+  else if ((beqb t9 (s2b "hotp"))) then (do t15 <- Src.GenerateHOTPURL fuel0 (mkUrlParam (otpURLGenerateReq_Issuer req) (otpURLGenerateReq_AccountName req) (otpURLGenerateReq_Period req) (otpURLGenerateReq_Secret req) digits algo);
+  let t16 := (fst t15, option_map err_text (snd t15)) in
+  let '(url_2, err__5) := t16 in
+  if (is_some err__5) then (do t17 <- writeError ctx 500%Z (s2b "otp generation failed") tt;
+  let '(ctx) := t17 in
+  Val ctx)
+  else
+  do t18 <- deref url_2;
+  let resp := set_otpURLGenerateResp_URL resp (url_string t18) in
+  kj1 resp)
+  else (do t19 <- writeError ctx 400%Z (s2b "invalid otp type") tt;
+  let '(ctx) := t19 in
+  Val ctx).
+
+Definition generateRandomSecret (junk_rand : bytes) (ctx : rctx) : res rctx :=
+  if (negb (ctx_is_get ctx)) then (do t1 <- writeError ctx 405%Z (s2b "method not allowed") tt;
+  let '(ctx) := t1 in
+  Val ctx)
+  else
+  do t2 <- Src.AlgorithmFromStr (ctx_query_alg ctx);
+  let algo := t2 in
+  do t3 <- Src.RandomSecret junk_rand algo;
+  let t4 := (fst t3, option_map err_text (snd t3)) in
+  let '(secret, err_) := t4 in
+  if (is_some err_) then (do t5 <- writeError ctx 500%Z (s2b "failed to generate secret") tt;
+  let '(ctx) := t5 in
+  Val ctx)
+  else
+  do t6 <- Src.Algorithm_String algo;
+  let resp := (mk_generateRandomSecretResp secret t6) in
+  let '(data, err_) := ((marshal_generateRandomSecretResp resp), @None bytes) in
+  if (is_some err_) then (do t7 <- writeError ctx 500%Z (s2b "failed to marshal response") tt;
+  let '(ctx) := t7 in
+  Val ctx)
+  else
+  let ctx := (ctx_set_ctype ctx (s2b "application/json")) in
+  let ctx := (ctx_set_status ctx 200%Z) in
+  let ctx := (ctx_set_body ctx data) in
+  Val ctx.
+
+Definition ocraGeneration (fuel0 : nat) (junk_rfc6287BufPool : bytes) (ctx : rctx) : res rctx :=
+  if (negb (ctx_is_post ctx)) then (do t1 <- writeError ctx 405%Z (s2b "method not allowed") tt;
+  let '(ctx) := t1 in
+  Val ctx)
+  else
+  let req : t_ocraGenerateReq := zero_ocraGenerateReq in
+  let '(req, t2) := unmarshal_ocraGenerateReq (ctx_body ctx) in
+  let err_ := t2 in
+  if (is_some err_) then (do t3 <- writeError ctx 400%Z (s2b "failed to decode body") tt;
+  let '(ctx) := t3 in
+  Val ctx)
+  else
+  do t4 <- ocraGenerateReq_validate req;
+  let err__2 := t4 in
+  if (is_some err__2) then (do t5 <- deref err__2;
+  do t6 <- writeError ctx 400%Z t5 tt;
+  let '(ctx) := t6 in
+  Val ctx)
+  else
+  let suite : (option suite_cfg) := None in
+  let kj1 := fun (suite : (option suite_cfg)) =>
+  let kj2 := fun (suite : (option suite_cfg)) =>
+  do t7 <- deref (ocraGenerateReq_Input req);
+  do t8 <- deref (ocraGenerateReq_Input req);
+  do t9 <- deref (ocraGenerateReq_Input req);
+  do t10 <- deref (ocraGenerateReq_Input req);
+  do t11 <- deref (ocraGenerateReq_Input req);
+  do t12 <- Src.HexInputToOCRA (ocraInput_CounterHex t7) (ocraInput_ChallengeHex t8) (ocraInput_PasswordHex t9) (ocraInput_SessionInfoHex t10) (ocraInput_TimestampHex t11);
+  let t13 := (fst t12, option_map err_text (snd t12)) in
+  let '(input, err__3) := t13 in
+  if (is_some err__3) then (do t14 <- writeError ctx 400%Z (s2b "failed to parse ocra input") tt;
+  let '(ctx) := t14 in
+  Val ctx)
+  else
+  do t15 <- Src.GenerateOCRA fuel0 junk_rfc6287BufPool (ocraGenerateReq_Secret req) suite input;
+  let t16 := (fst t15, option_map err_text (snd t15)) in
+  let '(code, err__3) := t16 in
+  if (is_some err__3) then (do t17 <- writeError ctx 500%Z (s2b "failed to generate ocra code") tt;
+  let '(ctx) := t17 in
+  Val ctx)
+  else
+  do t18 <- deref suite;
+  do t19 <- Src.SuiteConfig_String t18;
+  let resp := (mk_otpGenerateResp code 0%Z 0%N t19) in
+  let '(data, err__3) := ((marshal_otpGenerateResp resp), @None bytes) in
+  if (is_some err__3) then (do t20 <- writeError ctx 500%Z (s2b "failed to marshal response") tt;
+  let '(ctx) := t20 in
+  Val ctx)
+  else
+  let ctx := (ctx_set_ctype ctx (s2b "application/json")) in
+  let ctx := (ctx_set_status ctx 200%Z) in
+  let ctx := (ctx_set_body ctx data) in
+  Val ctx in
+  if (negb (beqb (ocraGenerateReq_RawSuite req) [])) then (do t21 <- Src.MustRawSuite fuel0 (ocraGenerateReq_RawSuite req);
+  let suite := (Some t21) in
+  kj2 suite)
+  else (kj2 suite) in
+  if (is_some (ocraGenerateReq_Suite req)) then (do t22 <- deref (ocraGenerateReq_Suite req);
+  do t23 <- Src.AlgorithmFromStr (suiteConfig_HashFunction t22);
+  do t24 <- deref (ocraGenerateReq_Suite req);
+  do t25 <- deref (ocraGenerateReq_Suite req);
+  do t26 <- deref (ocraGenerateReq_Suite req);
+  do t27 <- deref (ocraGenerateReq_Suite req);
+  do t28 <- deref (ocraGenerateReq_Suite req);
+  do t29 <- deref (ocraGenerateReq_Suite req);
+  do t30 <- deref (ocraGenerateReq_Suite req);
+  do t31 <- deref (ocraGenerateReq_Suite req);
+  do t32 <- deref (ocraGenerateReq_Suite req);
+  do t33 <- Src.NewSuite (mkSuite [] t23 (suiteConfig_CodeDigits t24) (suiteConfig_ChallengeFormat t25) (suiteConfig_IncludeCounter t26) (suiteConfig_IncludeChallenge t27) (suiteConfig_IncludePassword t28) (suiteConfig_IncludeSession t29) (suiteConfig_IncludeTimestamp t30) (suiteConfig_PasswordHash t31) (suiteConfig_Timestep t32));
+  let t34 := (fst t33, option_map err_text (snd t33)) in
+  let '(s, err__4) := t34 in
+  if (is_some err__4) then (do t35 <- writeError ctx 400%Z (s2b "failed to create suite") tt;
+  let '(ctx) := t35 in
+  Val ctx)
+  else
+  let suite := s in
+  kj1 suite)
+  else (kj1 suite).
+
+Definition ocraValidation (fuel0 : nat) (junk_rfc6287BufPool : bytes) (ctx : rctx) : res rctx :=
+  if (negb (ctx_is_post ctx)) then (do t1 <- writeError ctx 405%Z (s2b "method not allowed") tt;
+  let '(ctx) := t1 in
+  Val ctx)
+  else
+  let req : t_ocraValidateReq := zero_ocraValidateReq in
+  let '(req, t2) := unmarshal_ocraValidateReq (ctx_body ctx) in
+  let err_ := t2 in
+  if (is_some err_) then (do t3 <- writeError ctx 400%Z (s2b "failed to decode body") tt;
+  let '(ctx) := t3 in
+  Val ctx)
+  else
+  do t4 <- ocraValidateReq_validate req;
+  let err__2 := t4 in
+  if (is_some err__2) then (do t5 <- deref err__2;
+  do t6 <- writeError ctx 400%Z t5 tt;
+  let '(ctx) := t6 in
+  Val ctx)
+  else
+  let suite : (option suite_cfg) := None in
+  let kj1 := fun (suite : (option suite_cfg)) =>
+  let kj2 := fun (suite : (option suite_cfg)) =>
+  do t7 <- deref (ocraValidateReq_Input req);
+  do t8 <- deref (ocraValidateReq_Input req);
+  do t9 <- deref (ocraValidateReq_Input req);
+  do t10 <- deref (ocraValidateReq_Input req);
+  do t11 <- deref (ocraValidateReq_Input req);
+  do t12 <- Src.HexInputToOCRA (ocraInput_CounterHex t7) (ocraInput_ChallengeHex t8) (ocraInput_PasswordHex t9) (ocraInput_SessionInfoHex t10) (ocraInput_TimestampHex t11);
+  let t13 := (fst t12, option_map err_text (snd t12)) in
+  let '(input, err__3) := t13 in
+  if (is_some err__3) then (do t14 <- writeError ctx 400%Z (s2b "failed to parse ocra input") tt;
+  let '(ctx) := t14 in
+  Val ctx)
+  else
+  do t15 <- Src.ValidateOCRA fuel0 junk_rfc6287BufPool (ocraValidateReq_Secret req) (ocraValidateReq_Code req) suite input;
+  let t16 := (fst t15, option_map err_text (snd t15)) in
+  let '(ok, _) := t16 in
+  let resp := (mk_otpValidateResp ok) in
+  let '(data, err__3) := ((marshal_otpValidateResp resp), @None bytes) in
+  if (is_some err__3) then (do t17 <- writeError ctx 500%Z (s2b "failed to marshal response") tt;
+  let '(ctx) := t17 in
+  Val ctx)
+  else
+  let ctx := (ctx_set_ctype ctx (s2b "application/json")) in
+  let ctx := (ctx_set_status ctx 200%Z) in
+  let ctx := (ctx_set_body ctx data) in
+  Val ctx in
+  if (negb (beqb (ocraValidateReq_RawSuite req) [])) then (do t18 <- Src.MustRawSuite fuel0 (ocraValidateReq_RawSuite req);
+  let suite := (Some t18) in
+  kj2 suite)
+  else (kj2 suite) in
+  if (is_some (ocraValidateReq_Suite req)) then (do t19 <- deref (ocraValidateReq_Suite req);
+  do t20 <- Src.AlgorithmFromStr (suiteConfig_HashFunction t19);
+  do t21 <- deref (ocraValidateReq_Suite req);
+  do t22 <- deref (ocraValidateReq_Suite req);
+  do t23 <- deref (ocraValidateReq_Suite req);
+  do t24 <- deref (ocraValidateReq_Suite req);
+  do t25 <- deref (ocraValidateReq_Suite req);
+  do t26 <- deref (ocraValidateReq_Suite req);
+  do t27 <- deref (ocraValidateReq_Suite req);
+  do t28 <- deref (ocraValidateReq_Suite req);
+  do t29 <- deref (ocraValidateReq_Suite req);
+  do t30 <- Src.NewSuite (mkSuite [] t20 (suiteConfig_CodeDigits t21) (suiteConfig_ChallengeFormat t22) (suiteConfig_IncludeCounter t23) (suiteConfig_IncludeChallenge t24) (suiteConfig_IncludePassword t25) (suiteConfig_IncludeSession t26) (suiteConfig_IncludeTimestamp t27) (suiteConfig_PasswordHash t28) (suiteConfig_Timestep t29));
+  let t31 := (fst t30, option_map err_text (snd t30)) in
+  let '(s, err__4) := t31 in
+  if (is_some err__4) then (do t32 <- writeError ctx 400%Z (s2b "failed to create suite") tt;
+  let '(ctx) := t32 in
+  Val ctx)
+  else
+  let suite := s in
+  kj1 suite)
+  else (kj1 suite).
+
+Definition listOCRASuites (fuel0 : nat) (ctx : rctx) : res rctx :=
+  if (negb (ctx_is_get ctx)) then (do t1 <- writeError ctx 405%Z (s2b "method not allowed") tt;
+  let '(ctx) := t1 in
+  Val ctx)
+  else
+  do t2 <- Src.ListSuites fuel0;
+  let resp := (mk_listOCRASuiteResp t2) in
+  let '(data, err_) := ((marshal_listOCRASuiteResp resp), @None bytes) in
+  if (is_some err_) then (do t3 <- writeError ctx 500%Z (s2b "failed to marshal response") tt;
+  let '(ctx) := t3 in
+  Val ctx)
+  else
+  let ctx := (ctx_set_ctype ctx (s2b "application/json")) in
+  let ctx := (ctx_set_status ctx 200%Z) in
+  let ctx := (ctx_set_body ctx data) in
+  Val ctx.
+
+Definition ocraSuiteConfig (ctx : rctx) : res rctx :=
+  if (negb (ctx_is_post ctx)) then (do t1 <- writeError ctx 405%Z (s2b "method not allowed") tt;
+  let '(ctx) := t1 in
+  Val ctx)
+  else
+  let req : t_suiteConfigReq := zero_suiteConfigReq in
+  let '(req, t2) := unmarshal_suiteConfigReq (ctx_body ctx) in
+  let err_ := t2 in
+  if (is_some err_) then (do t3 <- writeError ctx 400%Z (s2b "failed to decode body") tt;
+  let '(ctx) := t3 in
+  Val ctx)
+  else
+  do t4 <- suiteConfigReq_validate req;
+  let err__2 := t4 in
+  if (is_some err__2) then (do t5 <- deref err__2;
+  do t6 <- writeError ctx 400%Z t5 tt;
+  let '(ctx) := t6 in
+  Val ctx)
+  else
+  do t7 <- Src.SuiteConfigFromRaws (suiteConfigReq_RawSuite req);
+  let cfg := t7 in
+  do t8 <- Src.Algorithm_String (sc_hash cfg);
+  let resp := (mk_suiteConfigResp (suiteConfigReq_RawSuite req) (mk_suiteConfig t8 (sc_digits cfg) (sc_challenge cfg) (sc_c cfg) (sc_q cfg) (sc_p cfg) (sc_s cfg) (sc_t cfg) (sc_pwhash cfg) (sc_timestep cfg))) in
+  let '(data, err__3) := ((marshal_suiteConfigResp resp), @None bytes) in
+  if (is_some err__3) then (do t9 <- writeError ctx 500%Z (s2b "failed to marshal response") tt;
+  let '(ctx) := t9 in
+  Val ctx)
+  else
+  let ctx := (ctx_set_ctype ctx (s2b "application/json")) in
+  let ctx := (ctx_set_status ctx 200%Z) in
+  let ctx := (ctx_set_body ctx data) in
+  Val ctx.
+
+Definition home (ctx : rctx) : res rctx :=
+  if (negb (ctx_is_get ctx)) then (do t1 <- writeError ctx 405%Z (s2b "method not allowed") tt;
+  let '(ctx) := t1 in
+  Val ctx)
+  else
+  let resp := (mk_homeResp (s2b "otp-api") (s2b "otp-api is a high-performance, minimalistic API server for generating and validating OTP codes (TOTP, HOTP, and OCRA) using the Ja7ad/otp Go library. It offers RESTful endpoints for secure authentication workflows, QR code URL generation, and dynamic OCRA suite handling.") (s2b "/docs") (s2b "ok")) in
+  let '(data, err_) := ((marshal_homeResp resp), @None bytes) in
+  if (is_some err_) then (do t2 <- writeError ctx 500%Z (s2b "failed to marshal response") tt;
+  let '(ctx) := t2 in
+  Val ctx)
+  else
+  let ctx := (ctx_set_ctype ctx (s2b "application/json")) in
+  let ctx := (ctx_set_status ctx 200%Z) in
+  let ctx := (ctx_set_body ctx data) in
+  Val ctx.
+
+Definition routers (fuel0 : nat) (junk_rand : bytes) (junk_rfc4226BufPool : bytes) (junk_rfc6287BufPool : bytes) (ctx : rctx) : res rctx :=
+  let path := (ctx_path ctx) in
+  if (beqb path (s2b "/docs")) then (let ctx := (ctx_redirect ctx (s2b "/docs/index.html") 302%Z) in
+  Val ctx)
+  else
+  if (is_prefix (s2b "/docs/") path) then (let ctx := ctx_other ctx in
+  Val ctx)
+  else
+  let t1 := path in
+  if ((beqb t1 (s2b "/totp/generate"))) then (do t2 <- totpGeneration fuel0 junk_rfc4226BufPool ctx;
+  let ctx := t2 in
+  Val ctx)
+  else if ((beqb t1 (s2b "/totp/validate"))) then (do t3 <- totpValidation fuel0 junk_rfc4226BufPool ctx;
+  let ctx := t3 in
+  Val ctx)
+  else if ((beqb t1 (s2b "/hotp/generate"))) then (do t4 <- hotpGeneration fuel0 junk_rfc4226BufPool ctx;
+  let ctx := t4 in
+  Val ctx)
+  else if ((beqb t1 (s2b "/hotp/validate"))) then (do t5 <- hotpValidation fuel0 junk_rfc4226BufPool ctx;
+  let ctx := t5 in
+  Val ctx)
+  else if ((beqb t1 (s2b "/ocra/generate"))) then (do t6 <- ocraGeneration fuel0 junk_rfc6287BufPool ctx;
+  let ctx := t6 in
+  Val ctx)
+  else if ((beqb t1 (s2b "/ocra/validate"))) then (do t7 <- ocraValidation fuel0 junk_rfc6287BufPool ctx;
+  let ctx := t7 in
+  Val ctx)
+  else if ((beqb t1 (s2b "/ocra/suites"))) then (do t8 <- listOCRASuites fuel0 ctx;
+  let ctx := t8 in
+  Val ctx)
+  else if ((beqb t1 (s2b "/ocra/suite"))) then (do t9 <- ocraSuiteConfig ctx;
+  let ctx := t9 in
+  Val ctx)
+  else if ((beqb t1 (s2b "/otp/url"))) then (do t10 <- otpURLGeneration fuel0 ctx;
+  let ctx := t10 in
+  Val ctx)
+  else if ((beqb t1 (s2b "/otp/secret"))) then (do t11 <- generateRandomSecret junk_rand ctx;
+  let ctx := t11 in
+  Val ctx)
+  else if ((beqb t1 (s2b "/"))) then (do t12 <- home ctx;
+  let ctx := t12 in
+  Val ctx)
+  else (let ctx := (ctx_set_status ctx 404%Z) in
+  let ctx := (ctx_set_body_string ctx (s2b "404 - Not Found")) in
+  Val ctx).
 
